@@ -56,8 +56,7 @@ func (a *Act) havocCall(in ssa.Value, instr ssa.Instruction, st *State, reach st
 		old := st.clone()
 		st.Next = nn
 		for _, k := range heapKinds {
-			st.H[k] = g.havoc(a.nm("H"+k+"_after"), heapSort[k])
-			g.assumeIf(reach, fmt.Sprintf("(forall ((r Int)) (! (=> (< r %s) (= (select %s r) (select %s r))) :pattern ((select %s r))))", old.Next, st.H[k], old.H[k], st.H[k]))
+			st.H[k] = g.framedHeap(a.nm("aftercall"), k, old.H[k], old.Next, nil, true)
 		}
 	}
 	if in == nil {
@@ -292,19 +291,38 @@ func (a *Act) callByContract(res ssa.Value, instr ssa.Instruction, fn *ssa.Funct
 			g.oblige("frame", a.srcDetail(instr), reach, "false", a.pos(instr.Pos()), "callee "+name+" may modify anything")
 		}
 	}
-	// effect: havoc
-	post := g.freshState(a.nm("after_" + sanitize(name)))
-	g.assumeIf(reach, fmt.Sprintf("(>= %s %s)", post.Next, st.Next))
+	// effect: havoc of the modifies set (and of everything allocated by the callee)
 	modRefs := cs.modRefs(cs.pre)
-	for _, k := range heapKinds {
-		if ct.ModifiesAll {
-			continue
+	var named []string
+	for _, m := range modRefs {
+		named = append(named, g.def(a.nm("mod"), "Int", m))
+	}
+	post := &State{H: map[string]string{}}
+	if ct.ModifiesAll {
+		post = g.freshState(a.nm("after_" + sanitize(name)))
+		g.assumeIf(reach, fmt.Sprintf("(>= %s %s)", post.Next, st.Next))
+	} else {
+		if ct.NoAlloc {
+			post.Next = st.Next
+		} else {
+			post.Next = g.havoc(a.nm("after_"+sanitize(name)+"_next"), "Int")
+			g.assumeIf(reach, fmt.Sprintf("(>= %s %s)", post.Next, st.Next))
 		}
-		guard := fmt.Sprintf("(< r %s)", st.Next)
-		for _, m := range modRefs {
-			guard = fmt.Sprintf("(and %s (not (= r %s)))", guard, m)
+		mk := cs.modRefKinds(cs.pre)
+		var allocK map[string]bool
+		if !ct.NoAlloc && fn != nil && len(fn.Blocks) > 0 {
+			allocK = g.eng.bodyWrites(fn)
+			if allocK["ALL"] {
+				allocK = nil
+			}
 		}
-		g.assumeIf(reach, fmt.Sprintf("(forall ((r Int)) (! (=> %s (= (select %s r) (select %s r))) :pattern ((select %s r))))", guard, post.H[k], st.H[k], post.H[k]))
+		for _, k := range heapKinds {
+			al := !ct.NoAlloc
+			if al && allocK != nil && !allocK[k] {
+				al = false
+			}
+			post.H[k] = g.framedHeapK(a.nm("after_"+sanitize(name)), k, st.H[k], st.Next, named, mk, al)
+		}
 	}
 	*st = *post
 	cs.post = st
@@ -315,7 +333,7 @@ func (a *Act) callByContract(res ssa.Value, instr ssa.Instruction, fn *ssa.Funct
 			for i := 0; i < tup.Len(); i++ {
 				n := g.havoc(a.nm(fmt.Sprintf("%s_%d", res.Name(), i)), g.sortOf(tup.At(i).Type()))
 				g.assumeIf(reach, rangeFact(tup.At(i).Type(), n))
-				g.assumeIf(reach, heapValWF(tup.At(i).Type(), n, st))
+				g.assumeIf(reach, g.heapValWF(tup.At(i).Type(), n, st))
 				rs = append(rs, n)
 			}
 			a.setTuple(res, rs)
@@ -597,7 +615,7 @@ func (a *Act) appendOp(res ssa.Value, instr ssa.Instruction, c *ssa.CallCommon, 
 		g.oblige("frame", a.srcDetail(instr), reach, cond, a.pos(instr.Pos()), "in-place append writes only memory allocated during the call or listed in modifies")
 	}
 	hPre := st.H[k]
-	ref := a.alloc(st, a.nm(base))
+	ref := a.alloc(st, a.nm(base), arrAlloc(el))
 	newcap := g.havoc(a.nm(base+"_cap"), "Int")
 	g.assumeIf(reach, fmt.Sprintf("(>= %s %s)", newcap, total))
 	cp := arrcopyFn[k]
@@ -633,7 +651,7 @@ func (a *Act) nextOp(in *ssa.Next, st *State, reach string) {
 	var v string
 	if slots(mt.Elem()) == 1 && kindOf(mt.Elem()) != "" {
 		v = g.def(a.nm(in.Name()+"_v"), g.sortOf(mt.Elem()), sel(st.H["M"+kindOf(mt.Elem())], m, a.mapKey(mt.Key(), key)))
-		g.assumeIf(reach, heapValWF(mt.Elem(), v, st))
+		g.assumeIf(reach, g.heapValWF(mt.Elem(), v, st))
 		g.assumeIf(reach, rangeFact(mt.Elem(), v))
 	} else {
 		v = g.havoc(a.nm(in.Name()+"_v"), g.sortOf(mt.Elem()))
@@ -685,7 +703,7 @@ func (a *Act) selectOp(in *ssa.Select, st *State, reach string) {
 	for i := 2; i < tup.Len(); i++ {
 		n := g.havoc(a.nm(fmt.Sprintf("%s_r%d", in.Name(), i)), g.sortOf(tup.At(i).Type()))
 		g.assumeIf(reach, rangeFact(tup.At(i).Type(), n))
-		g.assumeIf(reach, heapValWF(tup.At(i).Type(), n, st))
+		g.assumeIf(reach, g.heapValWF(tup.At(i).Type(), n, st))
 		vs = append(vs, n)
 	}
 	a.setTuple(in, vs)
